@@ -91,8 +91,14 @@ namespace chaiscript {
         }
       }
 
-      inline Boxed_Value clone_if_necessary(Boxed_Value incoming, std::atomic_uint_fast32_t &t_loc, const chaiscript::detail::Dispatch_State &t_ss) {
-        if (!incoming.is_return_value()) {
+      /// \param t_is_variable the value was read from a named variable. A function parameter (and a lambda
+      ///        capture of it) keeps the return-value flag of the temporary it was bound to, but it is
+      ///        not a temporary any more: it must be copied like any other variable, not taken over.
+      inline Boxed_Value clone_if_necessary(Boxed_Value incoming,
+                                            std::atomic_uint_fast32_t &t_loc,
+                                            const chaiscript::detail::Dispatch_State &t_ss,
+                                            const bool t_is_variable = false) {
+        if (!incoming.is_return_value() || t_is_variable) {
           if (incoming.get_type_info().is_arithmetic()) {
             return Boxed_Number::clone(incoming);
           } else if (incoming.get_type_info().bare_equal_type_info(typeid(bool))) {
@@ -454,7 +460,7 @@ namespace chaiscript {
                 params[0].reset_return_value();
                 return params[1];
               } else {
-                params[1] = detail::clone_if_necessary(std::move(params[1]), m_clone_loc, t_ss);
+                params[1] = detail::clone_if_necessary(std::move(params[1]), m_clone_loc, t_ss, this->children[1]->identifier == AST_Node_Type::Id);
               }
             }
 
@@ -542,7 +548,7 @@ namespace chaiscript {
         const std::string &idname = this->children[0]->text;
 
         try {
-          Boxed_Value bv(detail::clone_if_necessary(this->children[1]->eval(t_ss), m_loc, t_ss));
+          Boxed_Value bv(detail::clone_if_necessary(this->children[1]->eval(t_ss), m_loc, t_ss, this->children[1]->identifier == AST_Node_Type::Id));
           bv.reset_return_value();
           t_ss.add_object(idname, bv);
           return bv;
@@ -1063,7 +1069,7 @@ namespace chaiscript {
           if (!this->children.empty()) {
             vec.reserve(this->children[0]->children.size());
             for (const auto &child : this->children[0]->children) {
-              vec.push_back(detail::clone_if_necessary(child->eval(t_ss), m_loc, t_ss));
+              vec.push_back(detail::clone_if_necessary(child->eval(t_ss), m_loc, t_ss, child->identifier == AST_Node_Type::Id));
             }
           }
           return const_var(std::move(vec));
@@ -1088,7 +1094,7 @@ namespace chaiscript {
 
           for (const auto &child : this->children[0]->children) {
             retval.insert(std::make_pair(t_ss->boxed_cast<std::string>(child->children[0]->eval(t_ss)),
-                                         detail::clone_if_necessary(child->children[1]->eval(t_ss), m_loc, t_ss)));
+                                         detail::clone_if_necessary(child->children[1]->eval(t_ss), m_loc, t_ss, child->children[1]->identifier == AST_Node_Type::Id)));
           }
 
           return const_var(std::move(retval));
